@@ -303,6 +303,34 @@ func (e *env) buildTable(fno int, items []item) *built {
 		if len(exp) > 0 && (b.MinKey() != exp[0].k || b.MaxKey() != exp[len(exp)-1].k) {
 			c.Fail("minmax-wrong", fmt.Sprintf("MinKey/MaxKey=%d/%d, kept keys span %d..%d", b.MinKey(), b.MaxKey(), exp[0].k, exp[len(exp)-1].k))
 		}
+		// what the stream writer tolerates with no stream open (Lemmas/C15Stream `Spec.step`: idle/write,
+		// idle/commit): a Write or a second Commit between two complete groups must not reach the file
+		if sw != nil && e.r.Intn(8) == 0 {
+			c.Branch("idle-stream-op")
+			before := status(b)
+			what := "Write"
+			if e.r.Intn(2) == 0 {
+				v := mkVal(e.r, 1+e.r.Intn(6))
+				p, msg = guard(func() {
+					n, _ := sw.Write(v.b)
+					c.Op("write "+v.spec, fmt.Sprintf("n=%d sws=%d", n, sw.Size()))
+				})
+			} else {
+				what = "Commit"
+				p, msg = guard(func() {
+					_ = sw.Commit()
+					c.Op("commit", status(b))
+				})
+			}
+			if p {
+				c.Fail("panic", fmt.Sprintf("stream writer panicked on a %s with no stream open: %s", what, msg))
+				_ = b.Abandon()
+				return nil
+			}
+			if status(b) != before {
+				c.Fail("idle-stream-op-disturbs-state", fmt.Sprintf("%s with no stream open changed the builder: %s -> %s", what, before, status(b)))
+			}
+		}
 	}
 	res.entries = exp
 	if all := accepted(itemEntries(items)); len(all) != len(exp) {
@@ -762,6 +790,9 @@ func (e *env) caseTable() {
 	}
 	e.c.NonTrivial()
 	e.probeTable(t, r)
+	if e.r.Intn(2) == 0 {
+		e.layoutProbe(t)
+	}
 }
 
 // caseBig: a few values of megabytes (thorough only); idx 0 forces offsets of width 4.
